@@ -896,6 +896,84 @@ Proof.
     unfold am_request in Hh. rewrite Hq in Hh. exact Hh.
 Qed.
 
+(* ------------------------------------------------------------------ statements as exported *)
+
+Lemma step_preserves f f' :
+  flow_step f f' ->
+  cur_uri f' = cur_uri f /\ am_req (c_req (i_call f')) = am_req (c_req (i_call f)) /\
+  am_unset (c_req (i_call f')) = am_unset (c_req (i_call f)).
+Proof.
+  intros H. pose proof (flow_step_keeps _ _ H) as K. split; [apply keeps_cur_uri; exact K|].
+  destruct K as (K1 & _ & K3). auto.
+Qed.
+
+Lemma last_location f input f' used rsp :
+  recv_try_response f input = Ok (f', used, Some rsp) ->
+  let ls := hm_get_all (rs_headers rsp) (s2b "location") in
+  (ls = [] -> i_location f' = None) /\
+  (forall l x, ls = l ++ [x] -> i_location f' = Some x) /\
+  i_status f' = Some (rs_status rsp).
+Proof.
+  intros H. destruct (try_response_location _ _ _ _ _ H) as [Hl Hs].
+  cbv zeta. rewrite Hl. split; [intros ->; reflexivity|]. split; [|exact Hs].
+  intros l x ->. apply last_opt_snoc.
+Qed.
+
+Lemma next_wire f p f' next g c' :
+  as_new_flow f p = Ok (f', Some next) -> prepared next g -> analyze_request (i_call g) = Ok c' ->
+  let target := cur_uri next in
+  let line := method_name (am_method (c_req (i_call next))) ++ [32] ++ u_pq target ++ [32] ++
+              version_name (am_version (c_req (i_call f))) ++ CRLF in
+  u_pq target <> [] /\
+  prelude_line (c_req c') = line /\
+  render_request_head (c_req c') = line ++ concat (map field_line (am_headers (c_req c'))) ++ CRLF /\
+  (~ (get_all (rq_headers (am_request (c_req (i_call f)))) (s2b "host") <> []) ->
+   get_all (am_headers (c_req c')) (s2b "host") = [uri_host target]).
+Proof.
+  intros H Hp Ha. cbv zeta.
+  destruct (next_head _ _ _ _ _ _ H Hp Ha) as [H1 H2].
+  split; [|split; [exact H1|split]].
+  - destruct (as_new_flow_uri _ _ _ _ H) as (loc & t & _ & Hr & <-). eapply resolve_pq_nonempty; eauto.
+  - rewrite render_flat, H1. reflexivity.
+  - intros Hk. apply H2.
+    destruct (get_all _ _); [reflexivity|exfalso; apply Hk; discriminate].
+Qed.
+
+Lemma headers_inherited f p f' next :
+  as_new_flow f p = Ok (f', Some next) ->
+  rq_headers (am_request (c_req (i_call next))) = rq_headers (am_request (c_req (i_call f))).
+Proof.
+  intros H. destruct (as_new_flow_shape _ _ _ _ H) as (orig & nm & keep & Hq & (A & _)).
+  unfold am_request. rewrite A, Hq. reflexivity.
+Qed.
+
+Lemma redirect_errors f p :
+  (i_location f = None -> as_new_flow f p = Err NoLocationHeader) /\
+  (forall loc, i_location f = Some loc -> is_text loc = false ->
+               as_new_flow f p = Err BadLocationHeader) /\
+  (forall loc, i_location f = Some loc -> i_status f <> None -> u_scheme (cur_uri f) <> [] ->
+               resolve (cur_uri f) loc = None -> as_new_flow f p = Err BadLocationHeader).
+Proof.
+  split; [apply as_new_flow_no_location|]. split.
+  - intros loc. apply as_new_flow_not_text.
+  - intros loc. apply as_new_flow_unresolvable.
+Qed.
+
+Lemma redirect_has_status f f' :
+  recv_response_proceed f = Ok (Some (TRedirect, f')) \/ recv_body_proceed f = Ok (Some (TRedirect, f')) ->
+  i_status f' <> None.
+Proof.
+  intros [H|H]; [eapply recv_response_proceed_status|eapply recv_body_proceed_status]; eauto.
+Qed.
+
+Lemma target_absolute base loc t :
+  resolve base loc = Some t -> u_scheme base <> [] ->
+  u_scheme t <> [] /\ u_auth t <> [] /\ u_pq t <> [].
+Proof.
+  intros H Hb. split; [eapply resolve_scheme_nonempty; eauto|].
+  split; [eapply resolve_auth_nonempty; eauto|eapply resolve_pq_nonempty; eauto].
+Qed.
+
 (* ------------------------------------------------------------------ concrete driving (examples) *)
 
 (** Drive a body-less flow through one exchange: write the head, proceed, read the response head,
